@@ -19,16 +19,23 @@ def program(ctx, config=None):
 _ARITH = {"add": "Add", "sub": "Sub", "mul": "Mul", "div": "Div", "rem": "Rem", "shl": "Shl", "shr": "Shr", "neg": "Neg"}
 
 
-def norm_key(key):
+def norm_key(key, callee=None):
+    """(function without closure components, kind, detail, operand type or None).  Arithmetic sites are brought to one
+    form whether they are a primitive operation (assert Overflow:Op:ty) or a trait call (<ty as Op>::op)."""
     fn, kind, detail = (key.split("|", 2) + ["", ""])[:3]
     fn = fn.replace("::{closure}", "")
+    ty = None
     if kind == "assert" and detail.startswith("Overflow:"):
-        kind, detail = "arith", detail.split(":")[1]
+        parts = detail.split(":")
+        kind, detail, ty = "arith", parts[1], (parts[2] if len(parts) > 2 and parts[2] else None)
     elif kind == "overflow-call":
         m = re.search(r"::(add|sub|mul|div|rem|shl|shr|neg)(_assign)?$", detail)
         if m:
             kind, detail = "arith", _ARITH[m.group(1)]
-    return "%s|%s|%s" % (fn, kind, detail)
+            if callee:
+                mt = re.match(r"^<&?([iu](?:8|16|32|64|size)) as ", callee)
+                ty = mt.group(1) if mt else None
+    return (fn, kind, detail, ty)
 
 
 def panic_audit(ctx, rep, P, groups, extra_roots=None, floor_sites=0):
@@ -67,25 +74,45 @@ def panic_audit(ctx, rep, P, groups, extra_roots=None, floor_sites=0):
                 dis += 1
                 rep.ok(P + ".panic", "discharged:%s" % s.key(), s.loc(), s.why)
             else:
-                und_all.setdefault(norm_key(s.key()), []).append((s, k))
-    # audited sites are matched on a normalised key: a site that moves between a function and one of its closures, or
-    # whose arithmetic is lowered as a trait call instead of a primitive operation, is still the same audited site
-    naudit = {}
-    for key, a in audit.items():
-        e = naudit.setdefault(norm_key(key), {"n": 0, "why": a["why"]})
-        e["n"] += a["n"]
-    for nkey, sites in sorted(und_all.items()):
-        a = naudit.get(nkey)
-        n = a["n"] if a else 0
-        if len(sites) <= n:
-            for s, k in sites:
+                und_all.setdefault(s.key(), []).append((s, k))
+    # 1. exact keys with their multiplicity
+    left_sites = []
+    capacity = {k_: a_["n"] for k_, a_ in audit.items()}
+    by_exact = {}
+    for nk, sites in und_all.items():
+        for s, k in sites:
+            by_exact.setdefault(s.key(), []).append((s, k))
+    for key, sites in sorted(by_exact.items()):
+        n = capacity.get(key, 0)
+        for i, (s, k) in enumerate(sites):
+            if i < n:
                 aud += 1
-                rep.ok(P + ".panic", "audited:%s" % s.key(), s.loc(), a["why"])
+                rep.ok(P + ".panic", "audited:%s" % key, s.loc(), audit[key]["why"])
+            else:
+                left_sites.append((s, k))
+        capacity[key] = max(0, n - len(sites))
+    # 2. a site that moved between a function and one of its closures, or whose arithmetic is now lowered as a trait call
+    #    instead of a primitive operation (same operation, same operand type), is still the same audited site
+    for s, k in left_sites:
+        callee = (s.term.get("f") or {}).get("res") or (s.term.get("f") or {}).get("path") if isinstance(s.term, dict) else None
+        fn, kind, detail, ty = norm_key(s.key(), callee)
+        hit = None
+        for key, cap in capacity.items():
+            if cap <= 0:
+                continue
+            fn2, kind2, detail2, ty2 = norm_key(key)
+            if (fn, kind, detail) == (fn2, kind2, detail2) and (ty is None or ty2 is None or ty == ty2):
+                hit = key
+                break
+        if hit is not None:
+            capacity[hit] -= 1
+            aud += 1
+            rep.ok(P + ".panic", "audited:%s" % s.key(), s.loc(), audit[hit]["why"] + " (matched on the normalised key of %s)" % hit)
         else:
-            for s, k in sites:
-                rep.bad(P + ".panic", "site:%s" % s.key(), s.loc(),
-                        "panic-capable site (%s %s) reachable from %s via %s is neither discharged by the interval analysis nor covered by the audit table (%d audited, %d present)" % (
-                            s.kind, s.detail, "/".join(groups), " -> ".join(strip_generics(x) for x in cg.path_to(k)[-4:]), n, len(sites)))
+            n = audit.get(s.key(), {}).get("n", 0)
+            rep.bad(P + ".panic", "site:%s" % s.key(), s.loc(),
+                    "panic-capable site (%s %s) reachable from %s via %s is neither discharged by the interval analysis nor covered by the audit table (%d audited for this key)" % (
+                        s.kind, s.detail, "/".join(groups), " -> ".join(strip_generics(x) for x in cg.path_to(k)[-4:]), n))
     rep.note(P + ".engineB", {"reachable_bodies": len(reach), "sites": total, "discharged_by_intervals": dis, "audited": aud, "by_kind": bykind})
     rep.floor(P + ".panic", "panic-capable sites enumerated", total, floor_sites)
     return reach, prog
